@@ -269,6 +269,40 @@ func (a *FnA) handled(e ssa.Value) (bool, string) {
 	return true, "tested; every path from the error edge returns or panics with it"
 }
 
+// errorMatters: the call's error is one the property is about — a write to a writer, a module
+// function (render …), the formatter, or the file system.
+func (c *Ctx) errorMatters(ci ssa.CallInstruction) bool {
+	cc := ci.Common()
+	if sinkOf(ci) != nil {
+		return true
+	}
+	if cc.IsInvoke() {
+		if _, ok := c.CG().implementations(cc); ok {
+			return true
+		}
+		return cc.Method.Name() == "Close" || cc.Method.Name() == "Flush" || cc.Method.Name() == "Sync"
+	}
+	sc := cc.StaticCallee()
+	if sc == nil {
+		return true // function value
+	}
+	if c.CG().Sum[sc] != nil {
+		return true
+	}
+	n := sc.String()
+	pk := ""
+	if sc.Pkg != nil {
+		pk = sc.Pkg.Pkg.Path()
+	}
+	switch {
+	case pk == "go/format", pk == "os", pk == "io", pk == "io/ioutil", pk == "bufio":
+		return true
+	case strings.HasPrefix(n, "(*os.File)."), strings.HasPrefix(n, "(*bufio.Writer)."), strings.HasPrefix(n, "(*bytes.Buffer)."):
+		return true
+	}
+	return false
+}
+
 func isPrivateBufferType(t types.Type) bool {
 	s := types.TypeString(t, nil)
 	return s == "*bytes.Buffer" || s == "*strings.Builder"
@@ -285,9 +319,27 @@ func ruleErrProp(c *Ctx) []Obligation {
 				continue
 			}
 			cn := calleeName(ci.Common())
+			if !c.errorMatters(ci) {
+				// errors of parsing / conversion helpers may legitimately be handled locally
+				o.info(fname(f), "error of "+cn, ci.Pos(), "not an output / file-system / render error: local handling is accepted")
+				continue
+			}
 			seq[cn]++
 			construct := fmt.Sprintf("error of %s #%d", cn, seq[cn])
 			if e == nil {
+				// accepted idiom: cleanup on a path that already carries another error
+				if sc := ci.Common().StaticCallee(); sc != nil && (sc.String() == "(*os.File).Close" || sc.String() == "os.Remove") {
+					failing := false
+					for atom, pol := range a.FactsOf(ci) {
+						if !pol && strings.HasPrefix(atom, "eq(") && (strings.HasSuffix(atom, ",nil)") || strings.HasPrefix(atom, "eq(nil,")) && strings.Contains(atom, "@") {
+							failing = true
+						}
+					}
+					if failing {
+						o.add(Discharged, fname(f), construct, ci.Pos(), false, "cleanup on a path that already returns another error")
+						continue
+					}
+				}
 				// accepted idiom: writes into a private in-memory buffer never fail
 				if s := sinkOf(ci); s != nil {
 					w := stripConv(s.Writer)
@@ -595,7 +647,7 @@ func ruleFragment(c *Ctx) []Obligation {
 		rwf := c.method(tn, "RenderWithFile")
 		rnd := c.method(tn, "Render")
 		gos := c.method(tn, "GoString")
-		irender := c.method(tn, "render")
+		irender := c.method(tn, c.renderName())
 		if rwf == nil || rnd == nil || gos == nil || irender == nil {
 			o.undecided("jen."+tn, "fragment renderers", token.NoPos, "anchor lost: RenderWithFile / Render / GoString / render not all found")
 			continue
